@@ -107,8 +107,26 @@ def blackbox(out, hists, seed, per_session=5, by_enc=None, offers=None):
                         else:
                             changes.append({"range": {"start": {"line": ch["s"]["l"], "character": ch["s"]["c"]},
                                                       "end": {"line": ch["e"]["l"], "character": ch["e"]["c"]}}, "text": t})
-                    sess.did_change(path, changes, ver)
-                    ver += 1
+                            # the deprecated rangeLength, as clients that still send it compute it (every other session)
+                            if (s0 // per_session) % 2 == 1:
+                                changes[-1]["rangeLength"] = ch["len"]
+                    if note.get("other"):
+                        # something happens to ANOTHER document of the package; this one must stay as it is - in particular it
+                        # must not be re-read from disk (where it differs from the editor's text in every second history)
+                        toml = os.path.join(pkg, "gleam.toml")
+                        sib = os.path.join(pkg, "src", "sibling.gleam")
+                        if note["other"] == "open_toml":
+                            sess.did_open(toml, open(toml).read())
+                        elif note["other"] == "watched_toml":
+                            open(toml, "a").write("\n# touched\n")
+                            sess.notify("workspace/didChangeWatchedFiles", {"changes": [{"uri": lsp.uri(toml), "type": 2}]})
+                        else:
+                            if not os.path.exists(sib):
+                                open(sib, "w").write("pub fn s() { 1 }\n")
+                            sess.did_open(sib, open(sib).read())
+                    else:
+                        sess.did_change(path, changes, ver)
+                        ver += 1
                     exp = render(note["posts"][-1], tab)
                     got, err = server_text(sess, path)
                     if got != exp:
